@@ -14,6 +14,11 @@ P = "param.parameterized."
 
 def run(ctx):
     ctx.rule("R12.t", "class-based context managers restore on every path: every attribute that __enter__ assigns (shared_parameters._share: while it is on, new instances share their instantiate=True values instead of copying them) is assigned again on every path through __exit__", floor=1)
+    ctx.rule("R12.v", "instance or class is decided by identity: no boolean-context use (if / and / or / not / conditional expression) of the namespace's instance (`self_.self` or a local alias) in "
+                      "class Parameters, nor of `obj` in the descriptor methods of Parameter types -- an instance of a class defining __len__ / __bool__ may be falsy and is still an instance", floor=40)
+    ctx.rule("R12.w", "who may write a class default: the only explicit `<Parameter>.__set__(None, value)` call is the metaclass's own (on the Parameter found in the class's OWN __dict__, after "
+                      "the copy for an inheriting subclass was installed); everything else assigns through setattr(cls, name, value), so a subclass that only inherits the Parameter gets its "
+                      "copy first and the ancestor's default is never written through it", floor=1)
     ctx.rule("R12.a", "in every Parameter method that receives `obj`, each write to self.default / a class-level slot lies on paths where `obj is None` holds (the instance route never writes class storage)", floor=4)
     ctx.rule("R12.b", "per-instance Parameter objects have a single producer: only _instantiated_parameter writes <instance>._param__private.params[key], and it writes the result of _instantiate_param_obj", floor=1)
     ctx.rule("R12.c", "_instantiate_param_obj returns a copy.copy of the class Parameter, gives it fresh watchers and re-copies every mutable-container slot other than default", floor=3)
@@ -274,3 +279,19 @@ def run(ctx):
     setter_model.report(ctx, "C12", "R12.m")
     from checks import ctor_model
     ctor_model.report(ctx, "C12", "R12.k")
+    from checks.shared import instance_tested_by_identity
+    instance_tested_by_identity(ctx, "R12.v")
+    # R12.w
+    n_w = 0
+    for g in ctx.repo.funcs.values():
+        for c in ast.walk(g.node):
+            if isinstance(c, ast.Call) and isinstance(c.func, ast.Attribute) and c.func.attr == "__set__" and c.args and isinstance(c.args[0], ast.Constant) and c.args[0].value is None:
+                n_w += 1
+                recv = c.func.value
+                own_dict = isinstance(recv, ast.Subscript) and norm(recv.value).endswith(".__dict__") and g.qualname == P + "ParameterizedMetaclass.__setattr__"
+                if own_dict:
+                    ctx.ok("R12.w", g, c, "the metaclass writes through the Parameter in the class's own __dict__")
+                else:
+                    ctx.fail("R12.w", g, c, "%s writes a class default with `%s`: the Parameter object it reaches may be the one an ancestor declares (the metaclass's copy-on-write is bypassed), "
+                                            "so the ancestor, its other subclasses and all their unset instances see the value" % (g.qualname, norm(c)[:80]), key=g.qualname + "::class-default-written-through-__set__")
+    ctx.require(n_w >= 1, "the metaclass's own __set__(None, value) call was not found")
